@@ -484,7 +484,11 @@ func DistinctScore(labels []string, stores []*StoreInfo, other *StoreInfo) float
 // MergeLabels merges the passed in labels with origins, overriding duplicated
 // ones.
 func (s *StoreInfo) MergeLabels(labels []*metapb.StoreLabel) []*metapb.StoreLabel {
-	storeLabels := s.GetLabels()
+	// work on a copy: the served store must not change before the new one is saved
+	storeLabels := make([]*metapb.StoreLabel, 0, len(s.GetLabels())+len(labels))
+	for _, l := range s.GetLabels() {
+		storeLabels = append(storeLabels, &metapb.StoreLabel{Key: l.Key, Value: l.Value})
+	}
 L:
 	for _, newLabel := range labels {
 		for _, label := range storeLabels {
